@@ -45,6 +45,22 @@ type oneSideSample struct {
 	v        float64
 }
 
+// outputSamples is the index from a series of the "many" side to its output
+// series: one per rank of the matched series of the "one" side, or a single
+// one when the output labels do not depend on it.
+type outputSamples [][]uint64
+
+func (o outputSamples) get(sampleID uint64, rank int) (uint64, bool) {
+	outputs := o[sampleID]
+	switch len(outputs) {
+	case 0:
+		return 0, false
+	case 1:
+		return outputs[0], true
+	}
+	return outputs[rank], true
+}
+
 // table evaluates one step of a vector binary operation with the matching
 // rules of the Prometheus engine:
 //   - nothing matches, and nothing fails, when either side is empty;
@@ -61,24 +77,27 @@ type table struct {
 	card      parser.VectorMatchCardinality
 
 	// manyOutputIndex maps a series ID of the "many" side to its output
-	// series ID, nil when no series of the "one" side can ever match it.
-	manyOutputIndex []*uint64
+	// series, empty when no series of the "one" side can ever match it.
+	manyOutputIndex outputSamples
 	// manySignatures and oneSignatures map series IDs to match group IDs.
 	manySignatures []int
 	oneSignatures  []int
-	epoch          uint64
-	oneSamples     []oneSideSample
-	matchedGroup   []uint64
-	outputSeen     []uint64
+	// oneRanks is the rank of a series of the "one" side in its match group.
+	oneRanks     []int
+	epoch        uint64
+	oneSamples   []oneSideSample
+	matchedGroup []uint64
+	outputSeen   []uint64
 }
 
 func newTable(
 	pool *model.VectorPool,
 	card parser.VectorMatchCardinality,
 	operation operation,
-	manyOutputIndex []*uint64,
+	manyOutputIndex outputSamples,
 	manySignatures []int,
 	oneSignatures []int,
+	oneRanks []int,
 	numSignatures int,
 	numOutputs int,
 ) *table {
@@ -90,6 +109,7 @@ func newTable(
 		manyOutputIndex: manyOutputIndex,
 		manySignatures:  manySignatures,
 		oneSignatures:   oneSignatures,
+		oneRanks:        oneRanks,
 
 		oneSamples:   make([]oneSideSample, numSignatures),
 		matchedGroup: make([]uint64, numSignatures),
@@ -131,8 +151,8 @@ func (t *table) execBinaryOperation(lhs model.StepVector, rhs model.StepVector, 
 		if oneSample.epoch != t.epoch {
 			continue
 		}
-		outputSampleID := t.manyOutputIndex[sampleID]
-		if outputSampleID == nil {
+		outputSampleID, ok := t.manyOutputIndex.get(sampleID, t.oneRanks[oneSample.sampleID])
+		if !ok {
 			continue
 		}
 
@@ -159,16 +179,16 @@ func (t *table) execBinaryOperation(lhs model.StepVector, rhs model.StepVector, 
 			}
 			t.matchedGroup[group] = t.epoch
 		} else {
-			if t.outputSeen[*outputSampleID] == t.epoch {
+			if t.outputSeen[outputSampleID] == t.epoch {
 				t.pool.PutStepVector(step)
 				return model.StepVector{}, &errManyToManyMatch{
 					multipleMatches: "multiple matches for labels: grouping labels must ensure unique matches",
 				}
 			}
-			t.outputSeen[*outputSampleID] = t.epoch
+			t.outputSeen[outputSampleID] = t.epoch
 		}
 
-		step.SampleIDs = append(step.SampleIDs, *outputSampleID)
+		step.SampleIDs = append(step.SampleIDs, outputSampleID)
 		step.Samples = append(step.Samples, outputVal)
 	}
 
